@@ -347,6 +347,20 @@ package table
 //@   loop 0 step !match ==> len(newComms) == header(len(newComms)) + 1 && newComms[len(newComms)-1] == comm
 //@   loop 0 step match ==> len(newComms) == header(len(newComms))
 
+// the as-path-prepend action puts copies of the configured AS, and nothing else, in front of the path: whatever
+// becomes the new leading segment starts with / consists of that AS
+//@ func cloneAsPath
+//@   requires asAttr != nil && (forall k int :: 0 <= k && k < len(asAttr.Value) ==> asAttr.Value[k] != nil)
+//@   modifies nothing
+//@   loop 0 invariant forall k int :: 0 <= k && k <= __iter ==> newASparams[k] != nil
+//@   ensures result != nil && fresh(result) && len(result.Value) == len(asAttr.Value) && (forall k int :: 0 <= k && k < len(result.Value) ==> result.Value[k] != nil)
+//@ func (*Path).PrependAsn
+//@   requires path != nil && wfAsPath(path)
+//@   claims inv-init inv-keep at-call
+//@   loop 0 invariant forall k int :: 0 <= k && k <= __iter ==> asns[k] == asn
+//@   at-call bgp.NewAs4PathParam(segType, newAsList) requires int(repeat) > 0 ==> arg1[0] == asn && arg1[int(repeat)-1] == asn
+//@   at-call bgp.NewAs4PathParam(segType, asns) requires len(arg1) > 0 && arg1[0] == asn && arg1[len(arg1)-1] == asn
+
 // from C16: the verdict as the policy condition uses it. ROATable.Validate gives no verdict (nil) for withdrawals and
 // for families that have no ROA table (everything but IPv4/IPv6 unicast); the rpki condition, which is evaluated for
 // every family, must not dereference that
